@@ -85,7 +85,7 @@ def val_coq(t, v):
     if k == "uint":
         return "(VUint %d)" % v
     if k == "bool":
-        return "(VBool %s)" % cbool(v)
+        return "(VBool %s)" % cbool(v) if isinstance(v, bool) else "(VUint %d)" % v
     if k in ("bitvec", "bitlist"):
         return "(VBits %s)" % clist(cbool(c == "1") for c in v)
     if k in ("bytevec", "bytelist"):
